@@ -60,6 +60,9 @@ FieldCases(s) ==
             mk == PerMarks(PerEmpty, s.tree, 0)
             octs == PickEven(Sorted({(p \div 8) + 1 : p \in {q \in mk.m : q < 8 * n}}))
             lens == {(p \div 8) + 1 : p \in {q \in mk.ln : q < 8 * n}}
+            \* open-type length octets that follow an information element's identifier (2 octets) and criticality (1 octet)
+            opens == {i \in {(p \div 8) + 1 : p \in {q \in mk.ol : q < 8 * n}} : i >= 6}
+            UnkId(i) == Overwrite(b, i - 3, <<255, 240>>)
         IN SetToSeq({Case(s, "field" \o ToString(Heads[h]) \o "x" \o ToString(t), i, Overwrite(b, i, <<Heads[h]>> \o Tails[t]))
                         : i \in octs, h \in 1..Len(Heads), t \in 1..Len(Tails)}
                     \cup {Case(s, "fieldcut", i, SubSeq(b, 1, i)) : i \in octs}
@@ -72,7 +75,16 @@ FieldCases(s) ==
                     \cup {Case(s, "lencut", i, SubSeq(b, 1, i)) : i \in lens}
                     \* a run of fragment headers in front of a length determinant: a decoder that adds up fragment sizes before it reads
                     \* any content allocates 64K units per input octet
-                    \cup {Case(s, "lenrun" \o ToString(k), i, SubSeq(b, 1, i - 1) \o Tup([j \in 1..k |-> 196]) \o SubSeq(b, i, n)) : i \in lens, k \in {4, 64}})
+                    \cup {Case(s, "lenrun" \o ToString(k), i, SubSeq(b, 1, i - 1) \o Tup([j \in 1..k |-> 196]) \o SubSeq(b, i, n)) : i \in lens, k \in {4, 64}}
+                    \* decoder dispatch on the information element identifier: an identifier no message knows (the value must be skipped or
+                    \* refused whatever its length determinant claims: adversarial lengths, input ending right behind the length or a few
+                    \* octets later), and identifiers of other information elements (the value is decoded as another type)
+                    \cup {Case(s, "unkid", i, UnkId(i)) : i \in opens}
+                    \cup {Case(s, "unkidlen" \o ToString(t) \o "c" \o ToString(c), i,
+                                LET w == Overwrite(UnkId(i), i, LenTails[t]) e == i + Len(LenTails[t]) - 1 IN
+                                IF c = 0 THEN w ELSE SubSeq(w, 1, IF e + c - 1 < n THEN e + c - 1 ELSE n))
+                              : i \in opens, t \in {5, 6, 8, 9, 10}, c \in {0, 1, 4}}
+                    \cup {Case(s, "othid" \o ToString(x), i, Overwrite(b, i - 3, <<0, x>>)) : i \in opens, x \in {10, 38, 85, 121}})
 \* container-consistent faults: the contents of one open type (the message body, the value of one IE, an embedded list item
 \* container) are corrupted and the whole PDU is re-encoded around them, so that every enclosing length is right and the decoder
 \* gets as far as the corrupted field:  contents cut at a field start; a field start octet set to 0x80 / 0xFF followed by an adversarial
